@@ -58,6 +58,23 @@ def run(ctx):
     ctx.note("model_drift_records", len(drift))
     for r in recs[:1] + recs[len(recs) // 2 : len(recs) // 2 + 1] + recs[-1:]:
         ctx.sample({k: r[k] for k in r if k in ("id", "mesh", "node_faces", "edge_faces", "face_faces", "holes")} if len(r.get("mesh", [])) < 12 else {"id": r["id"], "n_face": len(r["mesh"])})
+    # 2. observation order, supplied tables, selected / dual grids, MPAS-shaped sources
+    from checks import mesh_hist as mh
+
+    mh.model_check(ctx)
+    scope = mh.scope_pool(meshes4, 4, "s4f2", rng, 40) + mh.scope_pool(m5, 5, "s5f2", rng, 40) + mh.scope_pool(m43, 4, "s4f3", rng, 30)
+    hcases, reqs = mh.assemble(ctx, PROP, rng, thorough, scope)
+    hrecs, _, _ = mh.run_histories(ctx, PROP, hcases, reqs)
+    mh.count_cases(ctx, hcases)
+    for r in hrecs[:1] + hrecs[-1:]:
+        ctx.sample({k: r[k] for k in r if k in ("id", "order", "derived_by")})
+    ctx.rule += (
+        " Histories: MeshOrder.tla (lazy grid by value; order independence, dims = shapes, joint coherence, supplied "
+        "tables kept: proved for the intended mechanism, four variants refuted) generates every permutation of the core "
+        "observables (en nf ef ff holes n_max_node_faces n_max_face_faces) and simulated orders over all 15 with isel / "
+        "get_dual steps; MeshSrcGen.tla writes the supplied tables, MPAS encodings (padding: zero / last / size+1 / one; "
+        "absent cells in any slot) and selections; every history is replayed on a real grid and judged by JudgeMeshHist.tla."
+    )
     ctx.assumptions += [
         "TLC's evaluator and the CommunityModules Json reader",
         "projection of integer tables (fill value -> -1 after dtype/fill flags are recorded)",
